@@ -136,9 +136,15 @@ def check(F, rep):
                     n = norm(o[4].get("fn", "") or "")
                     if n.startswith("core::net::ip_addr::IpAddr::"):
                         kinds.add(n.rsplit("::", 1)[-1])
+            # loop form: `for addr in addrs { state.queue.push_back(IpAddr::V4(addr)) }`
+            pushes = [(b, t) for b, t in calls_in(f, reg) if call_matches(t, r"VecDeque::push_back$") and recv_field(f, t["args"][0]) == "queue"]
+            for b, t in pushes:
+                for x in copy_sources(f, op_base(t["args"][1])):
+                    if x[0] == "agg" and x[1].startswith("core::net::ip_addr::IpAddr::"):
+                        kinds.add(x[1].rsplit("::", 1)[-1])
             slots = {place_field_names(s["lhs"])[-1] for s in errw}
-            if exts or errw:
-                fam[a] = (kinds, slots, len(exts))
+            if exts or errw or pushes:
+                fam[a] = (kinds, slots, len(exts) + len(pushes))
         rep.ob("table_agreement", len(fam) == 2 and sorted((tuple(sorted(k)), tuple(sorted(s))) for k, s, n in fam.values()) == [(("V4",), ("v4_err",)), (("V6",), ("v6_err",))] and all(n == 1 for k, s, n in fam.values()),
                site(f, sel.bb), "each lookup arm extends the queue with its own address kind and stores its error in its own slot: %s" % {a: (sorted(k), sorted(s)) for a, (k, s, n) in fam.items()}, skey(F, f, "family-symmetry"))
     # 7. literal / missing host
